@@ -129,6 +129,14 @@ class C01(Scenario):
         # (the answers must follow the values the named arguments have *now*)
         plain = [n for n, p_ in decl.parameters.items() if not hasattr(p_.value, "fn")]
         if plain:
+            # one edit, then a look (a later invalidating edit must not repair what an earlier one left stale)
+            with ctx.impl("update_parameter (last declared)"):
+                m.update_parameter(plain[-1], ctx.real(f"p1_{plain[-1]}"))
+            dx1 = E.rhs(E.Decl(m), state, T)
+            with ctx.impl("__call__ after one update"):
+                out = m(T, [state[v] for v in names])
+            for i, v in enumerate(names):
+                ctx.eq(f"after one update: __call__[{v}]", out[i], dx1[v])
             with ctx.impl("update_parameter"):
                 for i, n in enumerate(plain):
                     if i % 2 == 0:
